@@ -79,6 +79,7 @@ type Lowerer struct {
 	assumed          map[string]bool
 	afterCall        []func()
 	acqPoints        []acqPoint
+	pendingRangeKey  string         // source text of the expression ranged over by the loop being opened
 	nilMapFact       map[string]int // block:var -> statement count when the nil-map fact was last stated
 	itPoints         []acqPoint
 	initializing     map[string]bool // objects being constructed (composite literal): not yet shared
